@@ -208,32 +208,37 @@ theorem lookup_blockCells (c c' : Cur) (rows : List (Row α)) (start ie : Nat) :
     have hcons : blockCells c (r :: rest) start = ((start, c.1, c.2.1, c.2.2), r) :: blockCells c rest (start + 1) := by
       simp [blockCells, List.zipIdx_cons]
     rw [hcons, List.reverse_cons, lookup_append, ih (start + 1), lookup_single]
+    have hkey : ((start, c.1, c.2.1, c.2.2) = (ie, c'.1, c'.2.1, c'.2.2)) ↔ (start = ie ∧ c' = c) := by
+      constructor
+      · intro h
+        injection h with h1 h2
+        injection h2 with h2 h3
+        injection h3 with h3 h4
+        exact ⟨h1, Prod.ext h2.symm (Prod.ext h3.symm h4.symm)⟩
+      · rintro ⟨h1, h2⟩
+        subst h1; subst h2; rfl
     by_cases hc : c' = c
-    · subst hc
-      by_cases h1 : start + 1 ≤ ie ∧ ie < start + 1 + rest.length
-      · have hlt : ie - (start + 1) < rest.length := by omega
-        rw [if_pos ⟨rfl, h1⟩, List.getElem?_eq_getElem hlt]
-        simp only [Option.or_some]
-        rw [if_pos ⟨rfl, by omega, by simp; omega⟩]
-        have : ie - start = (ie - (start + 1)) + 1 := by omega
-        rw [this, List.getElem?_cons_succ, List.getElem?_eq_getElem hlt]
-      · rw [if_neg (fun h => h1 h.2)]
-        simp only [Option.none_or]
-        by_cases e : ie = start
-        · subst e
-          rw [if_pos rfl, if_pos ⟨rfl, Nat.le_refl _, by simp⟩]
-          simp
-        · rw [if_neg (by intro h; injection h with h; exact e h.symm)]
-          rw [if_neg (by intro h; simp only [List.length_cons] at h; omega)]
-    · rw [if_neg (fun h => hc h.1), if_neg (fun h => hc h.1)]
-      simp only [Option.none_or]
-      rw [if_neg]
-      intro h
-      apply hc
-      injection h with h1 h2
-      injection h2 with h2 h3
-      injection h3 with h3 h4
-      exact Prod.ext h2.symm (Prod.ext h3.symm h4.symm)
+    · by_cases h0 : start = ie
+      · -- the row just added
+        have hfalse : ¬ (c' = c ∧ start + 1 ≤ ie ∧ ie < start + 1 + rest.length) := by
+          intro h; omega
+        rw [if_neg hfalse, if_pos (hkey.2 ⟨h0, hc⟩), if_pos ⟨hc, by omega, by simp only [List.length_cons]; omega⟩]
+        have : ie - start = 0 := by omega
+        rw [this]
+        rfl
+      · rw [if_neg (fun h => h0 (hkey.1 h).1)]
+        by_cases h1 : start + 1 ≤ ie ∧ ie < start + 1 + rest.length
+        · rw [if_pos ⟨hc, h1⟩, if_pos ⟨hc, by omega, by simp only [List.length_cons]; omega⟩]
+          have : ie - start = (ie - (start + 1)) + 1 := by omega
+          rw [this, List.getElem?_cons_succ]
+          cases rest[ie - (start + 1)]? <;> rfl
+        · rw [if_neg (fun h => h1 h.2), if_neg]
+          · rfl
+          · intro h
+            simp only [List.length_cons] at h
+            omega
+    · rw [if_neg (fun h => hc h.1), if_neg (fun h => hc (hkey.1 h).2), if_neg (fun h => hc h.1)]
+      rfl
 
 theorem lookup_cellsOf_none (d : List (Block α)) (c c' : Cur) (ie : Nat) (h : c' ∉ cursors c d) :
     lookup (cellsOf c d) (ie, c'.1, c'.2.1, c'.2.2) = none := by
@@ -258,14 +263,270 @@ theorem lookup_cellsOf (d : List (Block α)) (c : Cur) (hnd : (cursors c d).Nodu
     | zero =>
       refine ⟨curStep c b, rfl, ?_⟩
       rw [cellsOf, lookup_append, lookup_cellsOf_none ks _ _ ie hnd.1, lookup_blockCells]
-      simp only [Option.none_or]
-      rw [if_pos ⟨rfl, Nat.zero_le _, by simpa using hie⟩]
-      simp only [Nat.sub_zero]
-      exact List.getElem?_eq_getElem hie
+      have hcond : curStep c b = curStep c b ∧ 0 ≤ ie ∧ ie < 0 + b.rows.length :=
+        ⟨rfl, Nat.zero_le _, by simpa using hie⟩
+      rw [if_pos hcond]
+      simp only [Option.none_or, Nat.sub_zero]
+      exact List.getElem?_eq_getElem (by simpa using hie)
     | succ j =>
       obtain ⟨cu, hcu, hl⟩ := ih (curStep c b) hnd.2 j (by simpa using hk) (by simpa using hie)
       refine ⟨cu, by simpa [cursors] using hcu, ?_⟩
       rw [cellsOf, lookup_append, hl]
       simp
+
+/-! ### `convert`, factored -/
+
+def ixf (flip : Bool) (n i : Nat) : Nat := if flip then n - 1 - i else i
+
+def negBlock (d : List (Block α)) (k : Nat) : Option (Block α) := if k = 0 ∨ k > d.length then none else d[d.length - k]?
+
+def eOf (d : List (Block α)) (b : B α) : Except Err (List α) :=
+  match (d.getLast?.bind (·.rows.getLast?)) with | some r => Except.ok (b.ebins ++ [r.hi]) | none => Except.error Err.index
+
+def nphib (b : B α) : Nat := if b.phibins.isEmpty then 1 else b.phibins.length
+def nmub (b : B α) : Nat := if b.mubins.isEmpty then 1 else b.mubins.length
+
+def tOf (d : List (Block α)) (b : B α) : Except Err (List α) :=
+  if (d.head?.bind (·.time)).isSome then addLast b.tbins (d.head?.bind (·.time)) ((negBlock d (nphib b * nmub b)).bind (·.time)) else pure b.tbins
+def mOf (d : List (Block α)) (b : B α) : Except Err (List α) :=
+  if (d.head?.bind (·.mu)).isSome then addLast b.mubins (d.head?.bind (·.mu)) ((negBlock d (nphib b)).bind (·.mu)) else pure b.mubins
+def pOf (d : List (Block α)) (b : B α) : Except Err (List α) :=
+  if (d.head?.bind (·.phi)).isSome then addLast b.phibins (d.head?.bind (·.phi)) ((negBlock d 1).bind (·.phi)) else pure b.phibins
+
+def assemble (dims : Nat × Nat × Nat × Nat) (b : B α) (hasInteg : Bool) (eb tb mb pb : List α) : Spectrum α :=
+  let nphi := dims.1; let nmu := dims.2.1; let nt := dims.2.2.1; let ne := dims.2.2.2
+  let fe := decreasing eb; let ft := decreasing tb; let fm := decreasing mb; let fp := decreasing pb
+  { ne := ne, nt := nt, nmu := nmu, nphi := nphi,
+    ebins := orientL fe eb, tbins := orientL ft tb, mubins := orientL fm mb, phibins := orientL fp pb,
+    cells := (List.range ne).flatMap fun ie => (List.range nt).flatMap fun it => (List.range nmu).flatMap fun im =>
+      (List.range nphi).map fun ip => lookup b.cells (ixf fe ne ie, ixf ft nt it, ixf fm nmu im, ixf fp nphi ip),
+    integ := if hasInteg then
+        some ((List.range nt).flatMap fun it => (List.range nmu).flatMap fun im => (List.range nphi).map fun ip =>
+          lookup b.integ (ixf ft nt it, ixf fm nmu im, ixf fp nphi ip))
+      else none }
+
+theorem convert_eq (d : List (Block α)) :
+    convert d = (nbBins d >>= fun dims =>
+      fill { ne := dims.2.2.2, nt := dims.2.2.1, nmu := dims.2.1, nphi := dims.1 } d >>= fun b =>
+      eOf d b >>= fun eb => tOf d b >>= fun tb => mOf d b >>= fun mb => pOf d b >>= fun pb =>
+      pure (assemble dims b ((d.head?.bind (·.integ)).isSome) eb tb mb pb)) := by
+  unfold convert eOf tOf mOf pOf
+  cases hnb : nbBins d with
+  | error e => rfl
+  | ok dims =>
+    obtain ⟨nphi, nmu, nt, ne⟩ := dims
+    simp only [bind, Except.bind]
+    cases hf : fill { ne := ne, nt := nt, nmu := nmu, nphi := nphi } d with
+    | error e => rfl
+    | ok b =>
+      simp only []
+      cases hl : (d.getLast?.bind fun x => x.rows.getLast?) with
+      | none => rfl
+      | some r =>
+        simp only []
+        by_cases ht : (d.head?.bind fun x => x.time).isSome = true <;>
+        by_cases hm : (d.head?.bind fun x => x.mu).isSome = true <;>
+        by_cases hp : (d.head?.bind fun x => x.phi).isSome = true <;>
+        simp only [ht, hm, hp, if_true, if_false, Bool.false_eq_true, pure, Except.pure, negBlock, nphib, nmub] <;>
+        (first | rfl | (split <;> first | rfl | (split <;> first | rfl | (split <;> rfl))))
+
+/-- when `convert` returns, every stage returned and the result is assembled from their outputs -/
+theorem convert_ok {d : List (Block α)} {sp : Spectrum α} (h : convert d = .ok sp) :
+    ∃ dims b eb tb mb pb, nbBins d = .ok dims ∧
+      fill { ne := dims.2.2.2, nt := dims.2.2.1, nmu := dims.2.1, nphi := dims.1 } d = .ok b ∧
+      eOf d b = .ok eb ∧ tOf d b = .ok tb ∧ mOf d b = .ok mb ∧ pOf d b = .ok pb ∧
+      sp = assemble dims b ((d.head?.bind (·.integ)).isSome) eb tb mb pb := by
+  rw [convert_eq] at h
+  cases h1 : nbBins d with
+  | error e => rw [h1] at h; cases h
+  | ok dims =>
+    rw [h1] at h
+    simp only [bind, Except.bind] at h
+    cases h2 : fill { ne := dims.2.2.2, nt := dims.2.2.1, nmu := dims.2.1, nphi := dims.1 } d with
+    | error e => rw [h2] at h; cases h
+    | ok b =>
+      rw [h2] at h
+      simp only at h
+      cases h3 : eOf d b with
+      | error e => rw [h3] at h; cases h
+      | ok eb =>
+        rw [h3] at h
+        simp only at h
+        cases h4 : tOf d b with
+        | error e => rw [h4] at h; cases h
+        | ok tb =>
+          rw [h4] at h
+          simp only at h
+          cases h5 : mOf d b with
+          | error e => rw [h5] at h; cases h
+          | ok mb =>
+            rw [h5] at h
+            simp only at h
+            cases h6 : pOf d b with
+            | error e => rw [h6] at h; cases h
+            | ok pb =>
+              rw [h6] at h
+              simp only [pure, Except.pure] at h
+              cases h
+              exact ⟨dims, b, eb, tb, mb, pb, rfl, h2, h3, h4, h5, h6, rfl⟩
+
+/-! ### C order -/
+
+theorem getElem?_flatMap_const {β γ : Type} (l : List β) (f : β → List γ) (m : Nat)
+    (hm : ∀ x ∈ l, (f x).length = m) (i j : Nat) (hj : j < m) :
+    (l.flatMap f)[i * m + j]? = (l[i]?).bind (fun x => (f x)[j]?) := by
+  induction l generalizing i with
+  | nil => simp
+  | cons x xs ih =>
+    rw [List.flatMap_cons]
+    have hx := hm x (by simp)
+    cases i with
+    | zero =>
+      simp only [Nat.zero_mul, Nat.zero_add, List.getElem?_cons_zero, Option.bind_some]
+      exact List.getElem?_append_left (by omega)
+    | succ i =>
+      have hge : (f x).length ≤ (i + 1) * m + j := by
+        rw [hx, Nat.add_mul]; omega
+      rw [List.getElem?_append_right hge, hx]
+      have : (i + 1) * m + j - m = i * m + j := by rw [Nat.add_mul]; omega
+      rw [this, ih (fun y hy => hm y (by simp [hy]))]
+      simp
+
+theorem sum_const_range (c n : Nat) : ((List.range n).map fun _ => c).sum = n * c := by
+  induction n with
+  | zero => simp
+  | succ n ih => rw [List.range_succ, List.map_append, List.sum_append, ih, Nat.succ_mul]; simp
+
+theorem ixf_lt (f : Bool) (n i : Nat) (hi : i < n) : ixf f n i < n := by
+  unfold ixf; split <;> omega
+
+theorem ixf_ixf (f : Bool) (n i : Nat) (hi : i < n) : ixf f n (ixf f n i) = i := by
+  unfold ixf; cases f <;> simp <;> omega
+
+/-- the cell of the assembled response at `(ie, it, im, ip)` (C order) -/
+theorem assemble_cell (dims : Nat × Nat × Nat × Nat) (b : B α) (hi : Bool) (eb tb mb pb : List α)
+    (ie it im ip : Nat) (h1 : ie < dims.2.2.2) (h2 : it < dims.2.2.1) (h3 : im < dims.2.1) (h4 : ip < dims.1) :
+    (assemble dims b hi eb tb mb pb).cells[((ie * dims.2.2.1 + it) * dims.2.1 + im) * dims.1 + ip]? =
+      some (lookup b.cells (ixf (decreasing eb) dims.2.2.2 ie, ixf (decreasing tb) dims.2.2.1 it,
+        ixf (decreasing mb) dims.2.1 im, ixf (decreasing pb) dims.1 ip)) := by
+  obtain ⟨nphi, nmu, nt, ne⟩ := dims
+  simp only at h1 h2 h3 h4 ⊢
+  unfold assemble
+  simp only
+  have l3 : ∀ ie' it' im', ((List.range nphi).map fun ip' => lookup b.cells (ixf (decreasing eb) ne ie', ixf (decreasing tb) nt it',
+      ixf (decreasing mb) nmu im', ixf (decreasing pb) nphi ip')).length = nphi := by intros; simp
+  have l2 : ∀ ie' it', ((List.range nmu).flatMap fun im' => (List.range nphi).map fun ip' => lookup b.cells
+      (ixf (decreasing eb) ne ie', ixf (decreasing tb) nt it', ixf (decreasing mb) nmu im', ixf (decreasing pb) nphi ip')).length
+      = nmu * nphi := by
+    intros; simp [List.length_flatMap, sum_const_range]
+  have l1 : ∀ ie', ((List.range nt).flatMap fun it' => (List.range nmu).flatMap fun im' => (List.range nphi).map fun ip' =>
+      lookup b.cells (ixf (decreasing eb) ne ie', ixf (decreasing tb) nt it', ixf (decreasing mb) nmu im',
+        ixf (decreasing pb) nphi ip')).length = nt * (nmu * nphi) := by
+    intros; simp [List.length_flatMap, sum_const_range]
+  -- peel the four loops
+  have e1 : ((ie * nt + it) * nmu + im) * nphi + ip = ie * (nt * (nmu * nphi)) + ((it * nmu + im) * nphi + ip) := by
+    simp only [Nat.add_mul, Nat.mul_assoc, Nat.add_assoc]
+  have b1 : (it * nmu + im) * nphi + ip < nt * (nmu * nphi) := by
+    have : it * nmu + im < nt * nmu := by
+      calc it * nmu + im < it * nmu + nmu := by omega
+        _ = (it + 1) * nmu := (Nat.succ_mul _ _).symm
+        _ ≤ nt * nmu := Nat.mul_le_mul_right _ h2
+    calc (it * nmu + im) * nphi + ip < (it * nmu + im) * nphi + nphi := by omega
+      _ = (it * nmu + im + 1) * nphi := (Nat.succ_mul _ _).symm
+      _ ≤ (nt * nmu) * nphi := Nat.mul_le_mul_right _ this
+      _ = nt * (nmu * nphi) := Nat.mul_assoc _ _ _
+  rw [e1, getElem?_flatMap_const _ _ (nt * (nmu * nphi)) (fun x _ => l1 x) ie _ b1, List.getElem?_range h1]
+  simp only [Option.bind_some]
+  have e2 : (it * nmu + im) * nphi + ip = it * (nmu * nphi) + (im * nphi + ip) := by
+    simp only [Nat.add_mul, Nat.mul_assoc, Nat.add_assoc]
+  have b2 : im * nphi + ip < nmu * nphi := by
+    calc im * nphi + ip < im * nphi + nphi := by omega
+      _ = (im + 1) * nphi := (Nat.succ_mul _ _).symm
+      _ ≤ nmu * nphi := Nat.mul_le_mul_right _ h3
+  rw [e2, getElem?_flatMap_const _ _ (nmu * nphi) (fun x _ => l2 ie x) it _ b2, List.getElem?_range h2]
+  simp only [Option.bind_some]
+  rw [getElem?_flatMap_const _ _ nphi (fun x _ => l3 ie it x) im _ h4, List.getElem?_range h3]
+  simp only [Option.bind_some]
+  rw [List.getElem?_map, List.getElem?_range h4]
+  rfl
+
+/-- a cell that is found was assigned -/
+theorem mem_of_lookup (l : List (Key × Row α)) (key : Key) (r : Row α) (h : lookup l key = some r) :
+    key ∈ l.map (·.1) := by
+  unfold lookup at h
+  cases hf : l.find? (fun x => x.1 == key) with
+  | none => rw [hf] at h; cases h
+  | some q =>
+    have h1 := List.find?_some hf
+    have h2 := List.mem_of_find?_eq_some hf
+    have : q.1 = key := by simpa using h1
+    exact List.mem_map.2 ⟨q, h2, this⟩
+
+/-- **every printed score ends up in the cell of its group, time step, mu zone and phi zone**: when `convert` returns and no
+two blocks were read under the same (time step, mu zone, phi zone) indices, row `ie` of block `k` is the content of the
+cell whose position along each axis is the printed index, read through the flip applied to the bins of that axis -/
+theorem score_at_cursor {d : List (Block α)} {sp : Spectrum α} (h : convert d = .ok sp)
+    (hnd : (cursors (0, 0, 0) d).Nodup) (k : Nat) (hk : k < d.length) (ie : Nat) (hie : ie < d[k].rows.length) :
+    ∃ (cu : Cur) (fe ft fm fp : Bool) (eb tb mb pb : List α),
+      (cursors (0, 0, 0) d)[k]? = some cu ∧
+      sp.ebins = orientL fe eb ∧ fe = decreasing eb ∧ sp.tbins = orientL ft tb ∧ ft = decreasing tb ∧
+      sp.mubins = orientL fm mb ∧ fm = decreasing mb ∧ sp.phibins = orientL fp pb ∧ fp = decreasing pb ∧
+      ie < sp.ne ∧ cu.1 < sp.nt ∧ cu.2.1 < sp.nmu ∧ cu.2.2 < sp.nphi ∧
+      sp.cells[((ixf fe sp.ne ie * sp.nt + ixf ft sp.nt cu.1) * sp.nmu + ixf fm sp.nmu cu.2.1) * sp.nphi
+        + ixf fp sp.nphi cu.2.2]? = some (some d[k].rows[ie]) := by
+  obtain ⟨dims, b, eb, tb, mb, pb, h1, h2, h3, h4, h5, h6, hsp⟩ := convert_ok h
+  obtain ⟨c1, c2, c3, c4, c5, c6⟩ := fill_cells d _ _ h2
+  simp only [B.cur, List.append_nil] at c1 c6
+  obtain ⟨cu, hcu, hl⟩ := lookup_cellsOf d (0, 0, 0) hnd k hk ie hie
+  have hkey := c6 _ (mem_of_lookup _ _ _ hl)
+  simp only at hkey
+  obtain ⟨r1, r2, r3, r4⟩ := hkey
+  subst hsp
+  refine ⟨cu, decreasing eb, decreasing tb, decreasing mb, decreasing pb, eb, tb, mb, pb, hcu, rfl, rfl, rfl, rfl, rfl, rfl,
+    rfl, rfl, r1, r2, r3, r4, ?_⟩
+  have := assemble_cell dims b ((d.head?.bind (·.integ)).isSome) eb tb mb pb
+    (ixf (decreasing eb) dims.2.2.2 ie) (ixf (decreasing tb) dims.2.2.1 cu.1) (ixf (decreasing mb) dims.2.1 cu.2.1)
+    (ixf (decreasing pb) dims.1 cu.2.2) (ixf_lt _ _ _ r1) (ixf_lt _ _ _ r2) (ixf_lt _ _ _ r3) (ixf_lt _ _ _ r4)
+  rw [ixf_ixf _ _ _ r1, ixf_ixf _ _ _ r2, ixf_ixf _ _ _ r3, ixf_ixf _ _ _ r4, c1, hl] at this
+  exact this
+
+/-! ### the time grid collected by `fill` -/
+
+theorem stepKeys_tbins (b : B α) (k : Block α) :
+    (stepKeys b k).tbins = b.tbins ++ (match k.time with | some s => [s.a] | none => []) := by
+  unfold stepKeys
+  cases k.time <;> cases k.mu <;> cases k.phi <;> simp
+
+/-- the time edges collected are the first printed bounds of the time steps, in the order read -/
+theorem fill_tbins : ∀ (d : List (Block α)) (b b' : B α), fill b d = .ok b' →
+    b'.tbins = b.tbins ++ (d.filterMap (·.time)).map (·.a) := by
+  intro d
+  induction d with
+  | nil => intro b b' h; rw [fill] at h; cases h; simp
+  | cons k ks ih =>
+    intro b b' h
+    rw [fill_cons] at h
+    cases hr : fillRows (stepKeys b k) k.rows 0 k.rows with
+    | error e => rw [hr] at h; cases h
+    | ok b1 =>
+      rw [hr] at h
+      obtain ⟨_, _, _, _, _, _, c7, _⟩ := fillRows_ok k.rows k.rows 0 _ _ hr
+      have hb1 : b1.tbins = b.tbins ++ (match k.time with | some s => [s.a] | none => []) := by
+        rw [c7, stepKeys_tbins]
+      have finish : ∀ b2 : B α, b2.tbins = b1.tbins → fill b2 ks = .ok b' →
+          b'.tbins = b.tbins ++ ((k :: ks).filterMap (·.time)).map (·.a) := by
+        intro b2 e hf
+        rw [ih b2 b' hf, e, hb1]
+        cases hk : k.time with
+        | none => simp [List.filterMap_cons, hk]
+        | some s => simp [List.filterMap_cons, hk]
+      cases hi : k.integ with
+      | none => rw [hi] at h; exact finish b1 rfl h
+      | some v =>
+        rw [hi] at h
+        simp only at h
+        split at h
+        · exact finish { b1 with integ := ((b1.itime, b1.imu, b1.iphi), v) :: b1.integ } rfl h
+        · cases h
 
 end T4Spec
